@@ -68,9 +68,21 @@ def find_bad():
 def search_broken(ctx):
     res, detail, rc = find_bad()
     failing = [k for k, v in res.items() if v == "false"]
-    if not failing and "true" not in detail and not detail:
+    # the two witness lists printed last: find_bad_all (certificate components) and gens_diff (pickle generations)
+    lists = [x.strip().replace(" ", "").replace("\n", "") for x in re.findall(r"=\s*(\[.*?\])\s*:\s*list", detail, re.S)]
+    gens = lists[1] if len(lists) > 1 else "[]"
+    if gens != "[]":
+        names, _ = __import__("corr_units").dataset_names()
+        m = re.search(r"\((\d+)%N,\[(\d+)%N", gens)
+        what = {"10": "decay constant (mu)", "11": "exact atomic mass", "12": "row of the exact C", "13": "row of the exact C^-1", "14": "exact days-per-year", "15": "array lengths"}
+        first = (f"{what.get(m.group(1), m.group(1))} of {names[int(m.group(2))] if int(m.group(2)) < len(names) else m.group(2)}" if m else gens[:200])
+        return [{"name": "generations-differ", "key": "gens:" + gens[:80], "found_input": True,
+                 "fails": "the two shipped generations of the high-precision data files (sympy_1.8 / sympy_1.9 pickles) hold different data: " + first,
+                 "input": first, "witnesses (component, indices)": gens[:1000], "failing_components": failing,
+                 "replay_how": "Eval vm_compute in (gens_diff Default18 Default) (coq/Model/FindBad.v)"}]
+    if not failing and not detail:
         return []
-    if not failing and "[]" in detail.replace(" ", "") and "false" not in detail:
+    if not failing and (not lists or lists[0] == "[]") and "false" not in detail:
         return []
     return [{"name": "data-certificate", "key": "data:" + ",".join(failing),
              "broken": "certificate component(s) evaluate to false on the current data files",
